@@ -45,7 +45,7 @@ Img(kind, x) ==
          (CASE x = "A" -> ImageOf(kind, [P |-> <<>>, U |-> <<Kid(49)>>]) [] x = "B" -> ImageOf(kind, [P |-> <<>>, U |-> <<<<GoInt("int64", 7), [t |-> "csig", x |-> Cs]>>, <<GoStr(<<120>>), GoInt("int64", 1)>>>>])
             [] x = "E" -> <<64>> [] x = "M" -> ImageOf(kind, [P |-> <<>>, U |-> <<BadKid>>]) [] x = "L" -> ImageOf(kind, [P |-> <<>>, U |-> <<Kid(1), <<GoInt("int64", 2), [t |-> "arr", xs |-> <<GoInt("int64", 4)>>]>>>>]))
 
-Ops == {"A", "B", "E", "M", "L", "si", "m", "so"}
+Ops == {"A", "B", "E", "M", "L", "si", "m", "so", "o"}       \* "o": decode another message into ANOTHER variable, then look at this one
 IsDec(o) == o \in {"A", "B", "E", "M", "L"}
 BufIn(i) == "in" \o ToString(i)
 BufOut(i) == "out" \o ToString(i)
@@ -55,6 +55,8 @@ Build(kind, h, i, lastIn, lastOut) ==
   LET o == h[i] IN
   IF IsDec(o) THEN <<[op |-> "unmarshal", obj |-> "d", kind |-> kind, buf |-> BufIn(i), bytes |-> Img(kind, o), withfresh |-> TRUE]>> \o Build(kind, h, i + 1, i, lastOut)
   ELSE IF o = "si" THEN (IF lastIn = 0 THEN <<>> ELSE <<[op |-> "scribble", obj |-> "", buf |-> BufIn(lastIn)], [op |-> "probe", obj |-> "d"]>>) \o Build(kind, h, i + 1, lastIn, lastOut)
+  ELSE IF o = "o" THEN <<[op |-> "unmarshal", obj |-> "d2", kind |-> kind, buf |-> ("x" \o ToString(i)), bytes |-> Img(kind, IF i % 2 = 0 THEN "A" ELSE "B"), withfresh |-> FALSE],
+                         [op |-> "probe", obj |-> "d"]>> \o Build(kind, h, i + 1, lastIn, lastOut)
   ELSE IF o = "m" THEN <<[op |-> "marshal", obj |-> "d", buf |-> BufOut(i)]>> \o Build(kind, h, i + 1, lastIn, i)
   ELSE (IF lastOut = 0 THEN <<>> ELSE <<[op |-> "scribble", obj |-> "", buf |-> BufOut(lastOut)], [op |-> "marshal", obj |-> "d", buf |-> BufOut(i)]>>) \o Build(kind, h, i + 1, lastIn, IF lastOut = 0 THEN 0 ELSE i)
 Prog(kind, h) == <<[op |-> "zero", obj |-> "d", kind |-> kind]>> \o Build(kind, h, 1, 0, 0)
